@@ -1721,12 +1721,10 @@ impl World for C12 {
 pub struct C16;
 
 /// Faults C16 injects: (kind of value, bits).
-fn c16_fault_values(tier: Tier) -> Vec<f64> {
+fn c16_fault_values(_tier: Tier) -> Vec<f64> {
     let mut v: Vec<f64> = NAN_VARIANTS.iter().map(|&b| f64::from_bits(b)).collect();
-    if tier == Tier::Thorough {
-        v.push(f64::INFINITY);
-        v.push(f64::NEG_INFINITY);
-    }
+    v.push(f64::INFINITY);
+    v.push(f64::NEG_INFINITY);
     v
 }
 
@@ -1855,7 +1853,7 @@ impl World for C16 {
         check_plain(scn, Judge { evals: true, streams: false, build: true, battery: true }, cov, prog)
     }
     fn rule(&self) -> String {
-        format!("Each evaluation is one seeded fault-free base history (1-16 events over evaluators and evaluate_v streams, as in C03/C12) plus ALL its single-fault variants: a NaN query (4 bit patterns: NAN, -NAN, signalling pattern, payload; thorough adds +-inf) inserted at every position 0..=len on every client; thorough also enumerates all position pairs of (NaN, then NaN | restart | +inf | -inf) for bases of <= 8 events. Every library call runs under catch_unwind; every non-NaN evaluator answer in every variant must equal Piecewise::evaluate bit for bit. counters.faulted_executions is the number of faulted histories executed. Once per base history an operation battery (piece-, segment- and piecewise-level clone, ==, abs_diff_eq, relative_eq, translate, *, *=, -, +, derivative, indefinite, integral, integral_iter(_ref) as they exist for the piece type) runs on every function under the crash monitor (counters.ops_battery_operations); counters.op_* count the library constructors and operators used as function sources. {ORDER_RULE} (counted over the faulted histories, the NaN being one more rank)")
+        format!("Each evaluation is one seeded fault-free base history (1-16 events over evaluators and evaluate_v streams, as in C03/C12) plus ALL its single-fault variants: a NaN query (4 bit patterns: NAN, -NAN, signalling pattern, payload) or a +-inf query inserted at every position 0..=len on every client; thorough also enumerates all position pairs of (NaN, then NaN | restart | +inf | -inf) for bases of <= 8 events. Every library call runs under catch_unwind; every non-NaN evaluator answer in every variant must equal Piecewise::evaluate bit for bit. counters.faulted_executions is the number of faulted histories executed. Once per base history an operation battery (piece-, segment- and piecewise-level clone, ==, abs_diff_eq, relative_eq, translate, *, *=, -, +, derivative, indefinite, integral, integral_iter(_ref) as they exist for the piece type) runs on every function under the crash monitor (counters.ops_battery_operations); counters.op_* count the library constructors and operators used as function sources. {ORDER_RULE} (counted over the faulted histories, the NaN being one more rank)")
     }
     fn assumptions(&self) -> Vec<String> {
         let mut a = common_assumptions();
